@@ -6,6 +6,7 @@ import (
 	"encoding/json"
 	"fmt"
 	"os"
+	"regexp"
 	"sort"
 	"strings"
 	"time"
@@ -420,12 +421,18 @@ func (e *Explorer) execute(n *node, stack []*node) []*node {
 	}
 }
 
+var hexAddr = regexp.MustCompile(`0x[0-9a-f]{6,}`)
+
+// Stable removes what legitimately differs between two executions of one
+// schedule from a message: heap addresses inside printed values.
+func Stable(s string) string { return hexAddr.ReplaceAllString(s, "0x?") }
+
 func (e *Explorer) violation(n *node, out vrt.Outcome, msg string) {
 	v := &Violation{Scenario: e.Sc.Name, Config: e.Sc.Config, Message: msg, Outcome: out.String(), Choices: e.path(n)}
 	// confirm by replaying twice with a trace
 	t1, m1, th := e.Replay(v.Choices)
 	_, m2, _ := e.Replay(v.Choices)
-	if m1 != m2 || (m1 == "" && out != vrt.Spin) {
+	if Stable(m1) != Stable(m2) || (m1 == "" && out != vrt.Spin) {
 		e.res.InfraError = fmt.Sprintf("NONDETERMINISM: violation %q did not reproduce on replay (%q / %q)", msg, m1, m2)
 		e.res.Exhaustive = false
 		return
